@@ -431,6 +431,74 @@ func genFloatDerived(t *rapid.T) string {
 	return pre + placePoint(t, dig, exp10)
 }
 
+// genHexBoundary builds hexadecimal texts on and next to rounding boundaries:
+// the 53-bit mantissa of a float followed by the halfway digit 8 and a tail of
+// further digits (zeros, decimal digits or letters), also around the
+// subnormal/normal border and the overflow threshold.
+func genHexBoundary(t *rapid.T) string {
+	var mant uint64 // 53-bit significand with the leading 1 (or less for subnormals)
+	exp := 0        // binary exponent of the leading digit
+	switch rapid.IntRange(0, 4).Draw(t, "hbkind") {
+	case 0:
+		mant = 1<<52 | rapid.Uint64Range(0, 1<<52-1).Draw(t, "hbmant")
+		exp = rapid.IntRange(-1022, 1023).Draw(t, "hbexp")
+	case 1: // all ones: rounding carries into the next binade
+		mant = 1<<53 - 1 - uint64(rapid.IntRange(0, 2).Draw(t, "hbones"))
+		exp = rapid.SampledFrom([]int{-1023, -1022, -1, 0, 1022, 1023}).Draw(t, "hbexp1")
+	case 2: // subnormal range: fewer significant bits
+		mant = rapid.Uint64Range(1, 1<<52-1).Draw(t, "hbsub")
+		exp = -1022
+	case 3: // the largest subnormals / smallest normals
+		mant = 1<<52 - 1 - uint64(rapid.IntRange(0, 3).Draw(t, "hbtop"))
+		exp = -1022
+	default:
+		mant = 1 << 52
+		exp = rapid.SampledFrom([]int{-1075, -1074, -1073, -1023, -1022, 1023, 1024}).Draw(t, "hbexp2")
+	}
+	// print as 0x1.<13 hex digits><tail>p<exp> (for case 2/3 the leading digit is 0)
+	lead := mant >> 52
+	frac := mant & (1<<52 - 1)
+	tail := ""
+	switch rapid.IntRange(0, 5).Draw(t, "hbtail") {
+	case 0:
+	case 1:
+		tail = "8"
+	case 2:
+		tail = "8" + strings.Repeat("0", rapid.IntRange(0, 12).Draw(t, "hbz")) + rapid.SampledFrom([]string{"1", "a", "f", "A", "9", "c"}).Draw(t, "hblast")
+	case 3:
+		tail = "7" + strings.Repeat("f", rapid.IntRange(0, 12).Draw(t, "hbf"))
+	case 4:
+		tail = "8" + strings.Repeat("0", rapid.IntRange(1, 12).Draw(t, "hbz2"))
+	default:
+		tail = rapid.StringMatching(`[0-9a-fA-F]{1,10}`).Draw(t, "hbrnd")
+	}
+	pre := rapid.SampledFrom([]string{"0x", "0X", "-0x", "+0x"}).Draw(t, "hbpre")
+	return fmt.Sprintf("%s%x.%013x%sp%d", pre, lead, frac, tail, exp)
+}
+
+// genPow5 builds decimal texts whose digits sit next to a power of five (the
+// cut-offs of shift-based decimal conversion), with small or negative exponents.
+func genPow5(t *rapid.T) string {
+	k := rapid.IntRange(1, 60).Draw(t, "p5k")
+	x := new(big.Int).Exp(big.NewInt(5), big.NewInt(int64(k)), nil)
+	switch rapid.IntRange(0, 3).Draw(t, "p5var") {
+	case 1:
+		x.Add(x, big.NewInt(int64(rapid.IntRange(-3, 3).Draw(t, "p5d"))))
+	case 2: // perturb a digit in the second half
+		ds := []byte(x.String())
+		i := len(ds)/2 + rapid.IntRange(0, len(ds)-len(ds)/2-1).Draw(t, "p5i")
+		ds[i] = byte('0' + rapid.IntRange(0, 9).Draw(t, "p5c"))
+		x.SetString(string(ds), 10)
+	case 3: // truncated to a shorter digit string
+		ds := x.String()
+		n := rapid.IntRange(1, len(ds)).Draw(t, "p5n")
+		x.SetString(ds[:n], 10)
+	}
+	dig := x.String()
+	exp := rapid.IntRange(-60, 30).Draw(t, "p5e") - len(dig)
+	return sign(t) + placePoint(t, dig, exp)
+}
+
 func genEdges(t *rapid.T) string {
 	base := rapid.SampledFrom([]string{
 		"1.797693134862315708145274237317043567981e308", // MaxFloat64
@@ -497,7 +565,11 @@ func mutate(t *rapid.T, s string) string {
 func Gen(t *rapid.T) Case {
 	where := "value"
 	var txt, gen string
-	switch rapid.IntRange(0, 9).Draw(t, "gen") {
+	switch rapid.IntRange(0, 11).Draw(t, "gen") {
+	case 10:
+		txt, gen = genHexBoundary(t), "hexboundary"
+	case 11:
+		txt, gen = genPow5(t), "pow5"
 	case 0, 1, 2:
 		txt, gen = genGrammar(t), "grammar"
 	case 3, 4, 5:
@@ -571,6 +643,21 @@ func fixedTexts() []string {
 	for _, n := range []int{799, 800, 801, 805, 900} {
 		out = append(out, "1"+strings.Repeat("0", n)+"e-"+strconv.Itoa(n), strings.Repeat("9", n)+"e-"+strconv.Itoa(n), "1"+strings.Repeat("0", n)+".5e-"+strconv.Itoa(n),
 			"1"+strings.Repeat("0", 400)+"."+strings.Repeat("0", n-400)+"1e-400", "0."+strings.Repeat("0", 50)+"1"+strings.Repeat("0", n)+"1e51")
+	}
+	// digit strings around every power of five up to 5^60, as d.ddd × 10^e for small e
+	for k := 1; k <= 60; k++ {
+		x := new(big.Int).Exp(big.NewInt(5), big.NewInt(int64(k)), nil)
+		for _, d := range []int64{-1, 0, 1} {
+			ds := new(big.Int).Add(x, big.NewInt(d)).String()
+			for _, e := range []int{-30, -10, -9, 0, 5} {
+				out = append(out, ds[:1]+"."+ds[1:]+"0e"+strconv.Itoa(e))
+			}
+		}
+		// a digit string half-way between a mis-typed and the true table entry
+		ds := x.String()
+		if len(ds) > 14 {
+			out = append(out, ds[:1]+"."+ds[1:13]+"5e-10", ds[:1]+"."+ds[1:12]+"5e-10", ds[:1]+"."+ds[1:14]+"e-10")
+		}
 	}
 	for e := -345; e <= 310; e += 1 {
 		out = append(out, "1e"+strconv.Itoa(e), "9.999999999999999999e"+strconv.Itoa(e), "2.2250738585072014e"+strconv.Itoa(e))
